@@ -203,6 +203,77 @@ pub fn drive(log: &mut Log) {
         let _ = std::fs::remove_file(&path);
     }
 
+    // comment lines with arbitrary content (TAB, unbalanced double quotes, very long, `#` only),
+    // first / between / last: "comment lines are skipped"
+    for _ in 0..log.opts.n(100, 1000) {
+        case += 1;
+        if !log.mine(case) {
+            continue;
+        }
+        let mut rng = Rng::new(seed, 116, case);
+        let k = rng.range(0, 4) as usize;
+        if !log.begin("comment", json!({"k": k})) {
+            continue;
+        }
+        let recs: Vec<Rec> = (0..rng.range(1, 4)).map(|_| rand_rec(&mut rng, k, log)).collect();
+        let data = match do_write(log, &recs, false, false) {
+            Some(x) => x,
+            None => continue,
+        };
+        for _ in 0..2 {
+            let (bytes_c, wh) = with_comments(&mut rng, &data);
+            for w in wh {
+                log.oblige(w);
+            }
+            log.oblige("bed_comment_arbitrary_content");
+            let mut a = mode_json("rtc", &bytes_c, "comments");
+            a["base"] = bytes(&data);
+            log.call("read", a, || {
+                let mut rd = Reader::new(&bytes_c[..]);
+                json!({"recs": Value::Array(read_items(&mut rd))})
+            });
+        }
+    }
+
+    // exhaustive "CSV-hostile" columns: every string of length <= 3 over { " \\ ' # % ; = , space }
+    // as name and as a later column (quote and backslash together included)
+    {
+        let hs = hostile_strings();
+        for (ci, chunk) in hs.chunks(20).enumerate() {
+            case += 1;
+            if !log.mine(case) {
+                continue;
+            }
+            if !log.opts.thorough() && (ci as u64 + seed) % 2 == 1 {
+                continue; // quick: half of the chunks, rotating with the seed
+            }
+            let mut rng = Rng::new(seed, 117, case);
+            if !log.begin("hostile", json!({"k": 2})) {
+                continue;
+            }
+            let recs: Vec<Rec> = chunk
+                .iter()
+                .map(|h| {
+                    let other = rng.pick(&hs).clone();
+                    let mut chrom = if rng.coin() { h.clone() } else { b"chr1".to_vec() };
+                    if chrom[0] == b'#' {
+                        chrom[0] = b'c';
+                    }
+                    if h.contains(&b'"') && h.contains(&b'\\') {
+                        log.oblige("bed_quote_and_backslash");
+                    }
+                    Rec { chrom, start: coord(&mut rng), end: coord(&mut rng), aux: vec![h.clone(), other] }
+                })
+                .collect();
+            log.oblige("csv_hostile_exhaustive");
+            let data = match do_write(log, &recs, false, true) {
+                Some(x) => x,
+                None => continue,
+            };
+            do_read(log, &data, "rt", "none");
+        }
+    }
+
     // columns containing double quotes (first position, fully quoted, inner, trailing): the csv
     // layer quotes them on write and unquotes them on read; only parsed == written is judged
     for _ in 0..log.opts.n(200, 2000) {
